@@ -131,6 +131,13 @@ void run_queue(const json& sc) {
     g_ticket_queue = &queue;
     std::vector<std::thread> threads;
     std::atomic<int> go{0};
+    // "storm" scenarios: the shutdown thread waits until every consumer is about to call wait_and_pop() and then shuts
+    // the queue down after a spin delay that sweeps (with the execution number) across the few hundred nanoseconds in
+    // which a consumer is between its predicate check and its sleep
+    const bool storm = sc.value("storm", false);
+    std::atomic<int> about_to_wait{0};
+    int nconsumers = 0;
+    for (const auto& k : kinds) if (k == "consumer") ++nconsumers;
     for (std::size_t i = 0; i < kinds.size(); ++i) {
         const int id = static_cast<int>(i) + 1;
         threads.emplace_back([&, id, i] {
@@ -147,8 +154,9 @@ void run_queue(const json& sc) {
             } else if (k == "consumer") {
                 int64_t quota = scripts[i].at(0);
                 while (quota != 0) {
-                    sched_sink("harness.before_pop");
+                    if (!storm) sched_sink("harness.before_pop");
                     int64_t v = INT64_MIN;
+                    ++about_to_wait;
                     queue.wait_and_pop(v);
                     if (v == INT64_MIN) break;     // returned without a value: shut down
                     if (quota > 0) --quota;
@@ -164,7 +172,13 @@ void run_queue(const json& sc) {
                     // shut down at a seeded moment
                     std::mt19937_64 r(g_seed * 31 + id);
                     static const uint64_t span[] = {20, 200, 1000, 5000};
-                    std::this_thread::sleep_for(std::chrono::microseconds(r() % span[(g_seed >> 3) % 4]));
+                    if (storm) {
+                        while (about_to_wait.load() < nconsumers) { /* spin */ }
+                        const uint64_t spins = (g_exec_no.load() * 37) % 600;
+                        for (volatile uint64_t w = 0; w < spins; ++w) { }
+                    } else {
+                        std::this_thread::sleep_for(std::chrono::microseconds(r() % span[(g_seed >> 3) % 4]));
+                    }
                     record("ShutdownCall", 0, false, 0, false);
                     queue.shutdown();
                 }
